@@ -479,7 +479,7 @@ Section CTI.
   Qed.
 
   Lemma cti_mon_step s a cq : cti_rel s a ->
-    exists a', cti_mon c a (model_ev (cti_step c) cti_answer s cq) = Some a'
+    exists a', mon_of (spec_unit (cti_spec c)) cti_chk (fun _ _ => true) a (model_ev (cti_step c) cti_answer s cq) = Some a'
                /\ cti_rel (step_state (cti_step c) s (fst cq)) a'.
   Proof.
     apply (@unit_mon_step _ _ _ _ _ (cti_step c) cti_answer (cti_spec c) cti_chk (fun _ _ => true) cti_rel).
